@@ -35,11 +35,11 @@ def eff(*names, touching=None):
 PROPS = {
     "C01": dict(profiles=["money", "mixed", "modsvc"], monitors=["escrowBacked", "conservation", "settlement", "batchDebit"],
                 state=any_of(acct_lines({ESCROW}), kinds("RQ", "AI", "EF")), effects=eff("transfer", touching={ESCROW}), errnames=False),
-    "C02": dict(profiles=["money", "mixed", "lifecycle", "genesis"], monitors=["settlement", "batchDebit", "conservation", "escrowBacked", "respondLaw"],
+    "C02": dict(profiles=["money", "mixed", "lifecycle", "genesis", "modsvc"], monitors=["settlement", "batchDebit", "conservation", "escrowBacked", "respondLaw"],
                 state=kinds("A", "RQ", "AI", "EF", "OE", "RS"), effects=eff("transfer", "slash"), errnames=False),
     "C03": dict(profiles=["bindings", "mixed", "modsvc", "genesis"], monitors=["depositBacked", "depositLaw", "supplyLaw", "conservation"],
                 state=kinds("A", "B", "S"), effects=eff("transfer", "slash"), errnames=True),
-    "C04": dict(profiles=["bindings", "money", "genesis"], monitors=["slashLaw", "supplyLaw", "depositBacked"],
+    "C04": dict(profiles=["bindings", "money", "genesis", "modsvc"], monitors=["slashLaw", "supplyLaw", "depositBacked"],
                 state=kinds("B", "S"), effects=eff("slash"), errnames=False),
     "C05": dict(profiles=["authority", "mixed", "modsvc"], monitors=["authority", "conservation"],
                 state=kinds("A"), effects=eff("transfer"), errnames=True),
@@ -57,7 +57,7 @@ PROPS = {
                 state=kinds("CX", "NQ", "XQ", "NH", "XH", "AI", "AB", "RQ"), effects=eff("ev"), errnames=False),
     "C12": dict(profiles=["modules", "lifecycle", "genesis"], monitors=["counts", "callbacks"],
                 state=kinds("CX", "RQ", "RS"), effects=eff("respcb", "statecb", "ev"), errnames=False),
-    "C13": dict(profiles=["money", "mixed", "genesis"], monitors=["ownerEarnings", "withdrawLaw", "conservation"],
+    "C13": dict(profiles=["money", "mixed", "genesis", "modsvc"], monitors=["ownerEarnings", "withdrawLaw", "conservation"],
                 state=kinds("EF", "OE", "WD", "A", "OW"), effects=eff("transfer"), errnames=True),
     "C14": dict(profiles=["bindings", "modsvc", "genesis"], monitors=["minDep", "slashLaw"],
                 state=kinds("B", "PR"), effects=eff("slash"), errnames=True),
